@@ -14,8 +14,8 @@ for id in "$@"; do
   cp $S/$demo /repo/$demo
   demow=$( (cd /repo && go test -vet=off -count=1 -run TestSeedDemo ./$(dirname $demo)/ 2>&1 | tail -1) )
   rm /repo/$demo
-  out=$( (cd /verif && timeout 3000 ./vcheck $id quick 2>&1 | grep -E "^(C[0-9]+ quick|INFRA|violation of|VIOLATION)" | head -12) )
-  code=$( (cd /verif && timeout 3000 ./vcheck $id quick >/dev/null 2>&1; echo $?) )
+  raw=$(mktemp); (cd /verif && timeout 3000 ./vcheck $id quick >$raw 2>&1); code=$?
+  out=$(grep -E "^(C[0-9]+ quick|INFRA|violation of|VIOLATION)" $raw | head -12); rm -f $raw
   git -C /repo checkout -- . ; git -C /repo status --short
   cp $S/$demo /repo/$demo
   demoo=$( (cd /repo && go test -vet=off -count=1 -run TestSeedDemo ./$(dirname $demo)/ 2>&1 | tail -1) )
